@@ -103,6 +103,16 @@ def make_L(rng, kind, scale=1.0):
         L1 = G.velocity_gradient(rng, "simple") * scale
         w = float(rng.uniform(0.5, 3.0))
         return (lambda t, x: L0 * np.cos(w * t * scale) ** 2 + L1 * np.sin(w * t * scale) ** 2), dict(kind=kind)
+    if kind == "spin":          # purely rotational velocity gradient: zero strain rate, F still rotates
+        w = rng.normal(size=3) * scale
+        W = np.array([[0.0, -w[2], w[1]], [w[2], 0.0, -w[0]], [-w[1], w[0], 0.0]])
+        return (lambda t, x, W=W: W.copy()), dict(kind=kind)
+    if kind == "shear_then_spin":   # strain for a while, then rigid rotation only
+        L0 = G.velocity_gradient(rng, "simple") * scale
+        w = rng.normal(size=3) * scale
+        W = np.array([[0.0, -w[2], w[1]], [w[2], 0.0, -w[0]], [-w[1], w[0], 0.0]])
+        ts = float(rng.uniform(0.05, 0.3)) / max(scale, 1e-300)
+        return (lambda t, x: L0.copy() if t < ts else W.copy()), dict(kind=kind, t_stop=ts)
     if kind == "stopping":      # the flow stops (exactly zero velocity gradient) part-way through
         L0 = G.velocity_gradient(rng, "simple") * scale
         ts = float(rng.uniform(0.05, 0.3)) / max(scale, 1e-300)
@@ -114,7 +124,7 @@ def make_L(rng, kind, scale=1.0):
     raise ValueError(kind)
 
 
-L_FAMILIES = ["simple", "pure", "axisym", "general", "trace", "time", "position", "stopping"]
+L_FAMILIES = ["simple", "pure", "axisym", "general", "trace", "time", "position", "stopping", "spin", "shear_then_spin"]
 
 
 def init_texture(rng, n, kind):
